@@ -59,6 +59,8 @@ func runC05(c *Ctx) {
 	ruleSyncRenewal(c, "R5.5")
 	ruleNilChannels(c, "R5.6")
 	ruleServeFromHead(c, "R5.7")
+	ruleNoWaitOnCancelledContext(c, "R5.6")
+	ruleSignedRound(c, "R5.8", sign) // after a halt the partial signed is head+1, the only round that can be appended
 }
 
 func ruleTickLevers(c *Ctx, r1, r2 string, run, sign *ssa.Function) {
@@ -332,6 +334,8 @@ func ruleSyncRenewal(c *Ctx, rule string) {
 	}
 	// guard: ctx.Err() != nil || clock.Now().After(lastRoundTime + period*factor)
 	hasErrArm, hasTimeArm := false, false
+	var renewEdges []edge  // edges on which a new sync is due
+	var afterArg ssa.Value // the deadline compared with the clock
 	// "leads to": from the edge every path reaches the go statement before it gets back to the select or leaves Run
 	barrier := func(b *ssa.BasicBlock) bool {
 		for _, in := range b.Instrs {
@@ -360,6 +364,7 @@ func ruleSyncRenewal(c *Ctx, rule string) {
 			if x, isEq, ok := nilTest(cond); ok && isEq != truth { // x != nil holds on e
 				if call, ok := x.(*ssa.Call); ok && methodName(call) == "Err" && leadsTo(e) {
 					hasErrArm = true
+					renewEdges = append(renewEdges, e)
 				}
 			}
 			if call, ok := cond.(*ssa.Call); ok && truth && methodName(call) == "After" {
@@ -378,12 +383,94 @@ func ruleSyncRenewal(c *Ctx, rule string) {
 				}
 				if strings.Contains(recvP, "clock") && usesPeriod && leadsTo(e) {
 					hasTimeArm = true
+					renewEdges = append(renewEdges, e)
+					afterArg = callArgs(call)[1]
 				}
 			}
 		}
 	}
 	c.Ok(rule, "a new sync starts when the previous sync's context is done", shortPos(c.P, g), hasErrArm, "ctx.Err() != nil leads to the goroutine running Sync")
 	c.Ok(rule, "a new sync starts when no beacon arrived for factor*period", shortPos(c.P, g), hasTimeArm, "clock.Now().After(lastRoundTime.Add(period*factor)) leads to the goroutine running Sync")
+	// the progress clock (the time the deadline is counted from) is refreshed only by progress: a beacon delivered by the
+	// running sync, or the start of a new sync. A refresh on any other path (e.g. for every request that is dropped because
+	// a sync is running) keeps pushing the deadline away and a silent sync is never renewed.
+	if afterArg != nil {
+		var sel *ssa.Select
+		forEachInstr(fn, func(_ *ssa.BasicBlock, _ int, in ssa.Instruction) {
+			if x, ok := in.(*ssa.Select); ok && x.Blocking {
+				sel = x
+			}
+		})
+		// definitions of the deadline's base inside the loop: clock readings flowing into it
+		var defs []*ssa.Call
+		seenV := map[ssa.Value]bool{}
+		var collect func(v ssa.Value, d int)
+		collect = func(v ssa.Value, d int) {
+			if v == nil || seenV[v] || d > 8 {
+				return
+			}
+			seenV[v] = true
+			switch x := v.(type) {
+			case *ssa.Phi:
+				for _, e := range x.Edges {
+					collect(e, d+1)
+				}
+			case *ssa.Call:
+				if x.Common().IsInvoke() && x.Common().Method.Name() == "Now" {
+					defs = append(defs, x)
+					return
+				}
+				if transparentCall(x) || strings.HasSuffix(calleeName(x), "time.Time).Add") {
+					for _, a := range callArgs(x) {
+						collect(a, d+1)
+					}
+				}
+			case *ssa.UnOp:
+				if a, isA := x.X.(*ssa.Alloc); isA {
+					for _, r := range *a.Referrers() {
+						if st, isSt := r.(*ssa.Store); isSt && st.Addr == ssa.Value(a) {
+							collect(st.Val, d+1)
+						}
+					}
+				}
+			}
+		}
+		collect(afterArg, 0)
+		nIn := 0
+		if sel != nil {
+			isRenew := func(e edge) bool {
+				for _, r := range renewEdges {
+					if r == e {
+						return true
+					}
+				}
+				// the arm receiving a synced beacon: index == k for the state on newSyncedBeacon
+				cond, truth, ok := edgeCond(e)
+				if !ok || !truth {
+					return false
+				}
+				b, isB := cond.(*ssa.BinOp)
+				if !isB || b.Op != token.EQL {
+					return false
+				}
+				ex, isEx := b.X.(*ssa.Extract)
+				k, isK := constInt(b.Y)
+				if !isEx || !isK || ex.Tuple != ssa.Value(sel) || ex.Index != 0 || int(k) >= len(sel.States) {
+					return false
+				}
+				return strings.Contains(pathOf(sel.States[k].Chan), "newSyncedBeacon")
+			}
+			for _, d := range defs {
+				if !reachableFrom(sel.Block(), nil)[d.Block()] {
+					continue // the initial value, before the loop
+				}
+				nIn++
+				c.Ok(rule, "the sync deadline is pushed back only by progress", shortPos(c.P, d), mustCrossFrom(sel.Block(), d, isRenew),
+					"this refresh of the progress clock is reached only through the synced-beacon arm or through the start of a new sync")
+			}
+		}
+		c.Floor(rule, "refreshes of the sync progress clock inside the loop", nIn, 2)
+	}
 	// lastRoundTime refreshed on every newSyncedBeacon receive: the select has a receive arm on newSyncedBeacon
 	okRef := false
 	forEachInstr(fn, func(_ *ssa.BasicBlock, _ int, in ssa.Instruction) {
@@ -535,6 +622,8 @@ func runC10(c *Ctx) {
 	ruleSyncTriesAllPeers(c, "R10.4")
 	ruleCheckAndCorrect(c, "R10.5")
 	ruleCompletionExact(c, "R10.6", tn)
+	ruleNoWaitOnCancelledContext(c, "R10.4")
+	ruleAppendStorePut(c, "R10.7") // a failed write leaves the head where it was, so the next peer can still deliver the round
 }
 
 func ruleKeyProvenanceIn(c *Ctx, rule string, fn *ssa.Function) {
@@ -942,6 +1031,7 @@ func runC11(c *Ctx) {
 	ruleHandOver(c, "R11.3")
 	ruleDispatchOrdered(c, "R11.4")
 	ruleDispatchLossless(c, "R11.5")
+	ruleAppendStorePut(c, "R11.6") // the layer below the dispatcher refuses a round it already holds: no round is dispatched twice
 }
 
 // R11.5: callbackStore.Put hands the stored beacon to every subscriber queue, unconditionally.
@@ -1033,19 +1123,11 @@ func ruleCursorCatchup(c *Ctx, rule string) {
 	})
 	okSeek := false
 	if seek != nil {
-		// argument is the captured fromRound = req.GetFromRound()
-		a := seek.Common().Args[1]
-		okSeek = strings.Contains(pathOf(a), "fromRound") || strings.HasSuffix(pathOf(a), ".FromRound")
-		if okSeek {
-			// resolve in the parent
-			okSeek = false
-			forEachInstr(fn, func(_ *ssa.BasicBlock, _ int, in ssa.Instruction) {
-				if call, ok := in.(*ssa.Call); ok && call.Common().IsInvoke() && call.Common().Method.Name() == "GetFromRound" {
-					if _, isParam := call.Common().Value.(*ssa.Parameter); isParam {
-						okSeek = true
-					}
-				}
-			})
+		// the argument is exactly the request's from-round (possibly through a captured local): no offset, no other source
+		a := canonValue(seek.Common().Args[1])
+		if call, ok := a.(*ssa.Call); ok && call.Common().IsInvoke() && call.Common().Method.Name() == "GetFromRound" {
+			_, isParam := canonValue(call.Common().Value).(*ssa.Parameter)
+			okSeek = isParam
 		}
 	}
 	c.Ok(rule, "catch-up starts at Seek(requested from-round)", shortPos(c.P, seek), okSeek, "")
@@ -1168,4 +1250,101 @@ func ruleDispatchOrdered(c *Ctx, rule string) {
 	}
 	c.Ok(rule, "internal/chain/beacon.(*callbackStore).Put enqueues under the lock that ordered the append", c.P.Pos(fn.Pos()), ok,
 		"the inner (append-ordered) Put returns before the store takes a *shared* lock to enqueue: two writers (aggregator, sync) can enqueue round r+1 before round r")
+}
+
+// ruleNoWaitOnCancelledContext: a function that has cancelled a context it created does not afterwards wait on that
+// context's Done channel: the wait returns at once, so a retry loop guarded by it never retries.
+func ruleNoWaitOnCancelledContext(c *Ctx, rule string) {
+	c.ranRules[rule] = true
+	n := 0
+	for _, fn := range c.P.SubjectFns() {
+		pk := fnPkgPath(fn)
+		if !(strings.HasPrefix(pk, modPath+"/internal/chain/beacon") || strings.HasPrefix(pk, pkCore) || isControlFn(fn)) {
+			continue
+		}
+		for _, ci := range callsIn(fn, func(ci ssa.CallInstruction) bool {
+			switch calleeName(ci) {
+			case "context.WithCancel", "context.WithTimeout", "context.WithDeadline":
+				return true
+			}
+			return false
+		}) {
+			mk, isCall := ci.(*ssa.Call)
+			if !isCall {
+				continue
+			}
+			var ctxV, cancelV ssa.Value
+			for _, r := range *mk.Referrers() {
+				if ex, ok := r.(*ssa.Extract); ok {
+					if ex.Index == 0 {
+						ctxV = ex
+					} else {
+						cancelV = ex
+					}
+				}
+			}
+			if ctxV == nil || cancelV == nil {
+				continue
+			}
+			// the context / cancel pair may live in cells (captured or reassigned in a loop): follow loads of the cells the
+			// two results are stored into
+			same := func(v ssa.Value, target ssa.Value) bool {
+				v = stripConv(v)
+				if v == target {
+					return true
+				}
+				if u, ok := v.(*ssa.UnOp); ok && u.Op == token.MUL {
+					if a, isA := u.X.(*ssa.Alloc); isA {
+						for _, st := range reachingStores(u, a) {
+							if st.Val != target {
+								return false
+							}
+						}
+						return len(reachingStores(u, a)) > 0
+					}
+				}
+				return false
+			}
+			var cancels []ssa.Instruction
+			forEachInstr(fn, func(_ *ssa.BasicBlock, _ int, in ssa.Instruction) {
+				if call, ok := in.(*ssa.Call); ok && !call.Common().IsInvoke() && call.Common().StaticCallee() == nil && same(call.Common().Value, cancelV) {
+					cancels = append(cancels, in)
+				}
+			})
+			if len(cancels) == 0 {
+				continue
+			}
+			forEachInstr(fn, func(_ *ssa.BasicBlock, _ int, in ssa.Instruction) {
+				var waits []ssa.Value
+				switch x := in.(type) {
+				case *ssa.Select:
+					for _, st := range x.States {
+						if st.Dir == types.RecvOnly {
+							waits = append(waits, st.Chan)
+						}
+					}
+				case *ssa.UnOp:
+					if x.Op == token.ARROW {
+						waits = append(waits, x.X)
+					}
+				}
+				for _, w := range waits {
+					dc, ok := stripConv(w).(*ssa.Call)
+					if !ok || !dc.Common().IsInvoke() || dc.Common().Method.Name() != "Done" || !same(dc.Common().Value, ctxV) {
+						continue
+					}
+					n++
+					dead := false
+					for _, k := range cancels {
+						if dominatesInstr(k, in) && dominatesInstr(mk, k) {
+							dead = true
+						}
+					}
+					c.Ok(rule, fnShort(fn)+" waits on the Done channel of a context it created", shortPos(c.P, in), !dead,
+						"the context was already cancelled by this function on every path to the wait: the wait returns immediately")
+				}
+			})
+		}
+	}
+	_ = n
 }
